@@ -66,6 +66,8 @@ func genLog() *leanFile {
 	}
 	l.def("encodeErrPanics", "Bool", fmt.Sprint(encPanics), "data, err := encode(m); if err != nil { panic(err) }")
 	l.cmp("putStringLenCmp", "server/commitlog/encoder.go", "lenEncoder.PutString", "len(in) ? math.MaxInt16", 0, "gt")
+	// the header count is stored in 16 bits: Encode refuses a message with more headers
+	l.cmp("headerCountCmp", "server/commitlog/message.go", "Message.Encode", "len(m.Headers) ? math.MaxUint16", 0, "gt")
 	// getHWPos: when the message at the HW is no longer retained, the first entry after it is not committed
 	gone := anyHas(condTexts(readerGo, "getHWPos"), "hwEntry.Offset > hw")
 	l.def("hwGoneCheck", "Bool", fmt.Sprint(gone), "if hwEntry.Offset > hw { return hwIdx, hwEntry.Position, nil }")
